@@ -18,4 +18,5 @@ INVARIANT FilterAgreesWithListing
 INVARIANT RenameRules
 INVARIANT DirEventsIgnored
 PROPERTY WindowMonotone
+VIEW view
 CHECK_DEADLOCK FALSE
